@@ -40,6 +40,7 @@ pub fn prop() -> Prop {
         independent: &["harness algebra for sum comparison"],
         ref_sample: |_| 0,
         required_probes: &["cheater_middle_only", "all_cheat", "cancel_pair", "kind_negate", "kind_other_session", "kind_other_signer", "kind_zero", "tr_R_odd", "tr_R_even", "first_cheater_named", "all_cheaters_named"],
+        prepare: None,
     }
 }
 
